@@ -4,8 +4,8 @@ import itertools
 from fractions import Fraction as Fr
 
 from ..nf import Rat, C
-from ..source import Unsupported, AnchorError, norm
-from ..xlate import Interp, Obj, ListV, DictV, Raised, FuncRef, BoundNative, Frame, _RaisedExc
+from ..source import Unsupported, AnchorError
+from ..xlate import Interp, Obj, ListV, DictV, Raised, FuncRef, Frame, _RaisedExc
 from .common import same, show, opaque_obj
 
 EQ = 'pmutt.equilibrium.Equilibrium'        # the public path; the defining module is found through the re-export
@@ -56,6 +56,23 @@ class OptimizeResultV(DictV, Obj):
         Obj.__init__(self, name, closed=True)
         self.attrs = self.d
         self.opaque_methods = _Members('scipy.optimize.OptimizeResult')
+        for nm in ('get', 'keys', 'values', 'items'):
+            dict.__setitem__(self.opaque_methods, nm, _dict_reader(nm))
+
+
+def _dict_reader(name):
+    """the reading methods of the dict an OptimizeResult is"""
+    def h(I_, obj, args, kwargs):
+        if kwargs or len(args) > (2 if name == 'get' else 0) or (name == 'get' and not args):
+            raise Unsupported('OptimizeResult.%s called with these arguments' % name)
+        if name == 'get':
+            return obj.d.get(obj.nkey(args[0]), args[1] if len(args) > 1 else None)
+        if name == 'keys':
+            return ListV([obj.okey(k) for k in obj.d])
+        if name == 'values':
+            return ListV(list(obj.d.values()))
+        return ListV([ListV([obj.okey(k), v]) for k, v in obj.d.items()])
+    return h
 
 
 def solver(cap, state, ns):
@@ -91,6 +108,35 @@ def solver(cap, state, ns):
         cap.update(rec)
         return sol
     return mini
+
+
+def bounds_object(I_, fr, args, kwargs, nd):
+    """scipy.optimize.Bounds(lb, ub, keep_feasible=False): the other spelling of the bounds minimize accepts"""
+    names = ('lb', 'ub', 'keep_feasible')
+    if len(args) > 3 or any(k not in names for k in kwargs) or any(nm in kwargs for nm in names[:len(args)]):
+        raise Unsupported('scipy.optimize.Bounds called with these arguments')
+    vals = dict(zip(names, args))
+    vals.update(kwargs)
+    if 'lb' not in vals or 'ub' not in vals:
+        raise Unsupported('scipy.optimize.Bounds with an infinite default bound')
+    b = Obj('Bounds', closed=True)
+    b.attrs.update({'lb': vals['lb'], 'ub': vals['ub'], 'keep_feasible': vals.get('keep_feasible', False)})
+    b.opaque_methods = _Members('scipy.optimize.Bounds')
+    b.isa = {'Bounds'}
+    return b
+
+
+def lower_bounds(bnds, ns):
+    """the lower bound of each of the ns amounts from either spelling (a sequence of (min, max) pairs, a Bounds object
+    with scalar or per-amount lb); None if it is neither"""
+    if isinstance(bnds, Obj) and 'Bounds' in bnds.isa:
+        lb = bnds.attrs['lb']
+        if isinstance(lb, Rat):
+            return [lb] * ns
+        return list(lb.items) if isinstance(lb, ListV) and len(lb) == ns else None
+    if isinstance(bnds, ListV) and len(bnds) == ns and all(isinstance(b_, ListV) and len(b_) == 2 for b_ in bnds.items):
+        return [b_.items[0] for b_ in bnds.items]
+    return None
 
 
 def build(I, repo, net, form, feed='feed_', sp=None, model=None):
@@ -280,9 +326,8 @@ def verify(run, I, eq, cap, res, ctx, feed, T, P, label, tag, full=True):
         return lnk if p_ok else None
     # bounds
     bnds = cap.get('bounds')
-    okb = isinstance(bnds, ListV) and len(bnds) == ns and all(
-        isinstance(b_, ListV) and isinstance(b_.items[0], Rat) and b_.items[0].is_const()
-        and b_.items[0].const_value() > 0 for b_ in bnds.items)
+    lbs = lower_bounds(bnds, ns)
+    okb = lbs is not None and all(isinstance(b_, Rat) and b_.is_const() and b_.const_value() > 0 for b_ in lbs)
     run.check(okb, 'REF.bounds', 'Equilibrium.get_net_comp', key + ' bounds',
               'amounts are not bounded below by a positive constant for every species: %s' % show(bnds, 120),
               owner.module, fn)
@@ -307,6 +352,7 @@ def success_instance(run, repo, net, form, label, owner, fn, mode, full, extras)
     ctx = (names, sp, comps, owner, fn)
     cap, state = {}, {'outcome': OK_, 'n': 0}
     I.native['scipy.optimize.minimize'] = solver(cap, state, len(net))
+    I.native['scipy.optimize.Bounds'] = bounds_object
 
     def ask(obj, k):
         T, P = D.sym('T%s' % k), D.sym('P%s' % k)
@@ -371,10 +417,11 @@ def failure_instance(run, repo, net, form, label, owner, fn, mode, seen, more=Tr
         return                      # reported by the other instance
     cap, state = {}, {'outcome': (False, st, nit), 'n': 0}
     I.native['scipy.optimize.minimize'] = solver(cap, state, len(net))
+    I.native['scipy.optimize.Bounds'] = bounds_object
     mode_key = 'success=False, status=%d (%s)' % (st, SLSQP_MESSAGES[st])
     what = '%s, %s' % (mode_key, 'few iterations' if nit is not None else 'as many iterations as the limit handed over')
 
-    def ask(obj, k, P=None):
+    def ask(obj, k):
         cap.clear()
         nw = len(I.warnings)
         res = I.call_method(obj, 'get_net_comp', [], {'T': D.sym('T%s' % k), 'P': D.sym('P%s' % k)})
@@ -565,6 +612,10 @@ MUTANTS = [
      'edits': [(E_, 'sol.x / np.sum(sol.x)', 'sol.x / np.sum(self.ele_feed)')]},
     {'name': 'constraint sign', 'expect': ('', '_constraints1_eq'),
      'edits': [(E_, '        s = x.dot(self.mol_elem) - self.ele_feed', '        s = x.dot(self.mol_elem) + self.ele_feed')]},
+    {'name': 'lower bound zero in a Bounds object', 'expect': ('REF.bounds', 'get_net_comp'),
+     'edits': [(E_, "from scipy.optimize import minimize\n", "from scipy.optimize import minimize, Bounds\n"),
+               (E_, "        self.bounds = list(repeat(b, len(self.species)))",
+                "        self.bounds = Bounds(0., b[1])")]},
     {'name': 'lower bound zero', 'expect': ('REF.bounds', 'get_net_comp'),
      'edits': [(E_, '        b = [1e-20, sum(self.ele_feed)]', '        b = [0., sum(self.ele_feed)]')]},
     {'name': 'module-level filter discards the runtime warnings of the module', 'expect': ('PATH.solver-status', 'get_net_comp'),
@@ -583,6 +634,11 @@ MUTANTS = [
     {'name': 'feed taken in the order of the model', 'expect': ('REF.constructor', '__init__'),
      'edits': [(E_, "        feed = np.array(list(network.values()))", "        feed = np.array([network[k_] for k_ in self.model if k_ in network])")]},
     # ---- white-box round 2: state between calls and between objects, the exit modes of the solver
+    {'name': 'module-level ignore-filter under `if not sys.warnoptions:`', 'expect': ('PATH.solver-status', 'get_net_comp'),
+     'edits': [(E_, 'warnings.filterwarnings("ignore", "Values in x were outside bounds during a ")\n',
+                'warnings.filterwarnings("ignore", "Values in x were outside bounds during a ")\n'
+                'if not sys.warnoptions:\n'
+                '    warnings.filterwarnings("ignore", category=RuntimeWarning, module=r"pmutt\\.equilibrium")\n')]},
     {'name': 'non-convergence warned once per object', 'expect': ('PATH.solver-status', 'get_net_comp'),
      'edits': [(E_, "        self.network = network\n", "        self.network = network\n        self._warned = False\n"),
                (E_, "        if not sol.success:\n", "        if not sol.success and not self._warned:\n            self._warned = True\n")]},
@@ -642,6 +698,10 @@ EQUIV = [
                (E_, "        return res(self.species, sol.x, sol.x/np.sum(sol.x), self.P, self.T)",
                 "        self._solved[(T, P)] = res(self.species, sol.x, sol.x/np.sum(sol.x), self.P, self.T)\n"
                 "        return self._solved[(T, P)]")]},
+    {'name': 'bounds handed over as a scipy.optimize.Bounds object',
+     'edits': [(E_, "from scipy.optimize import minimize\n", "from scipy.optimize import minimize, Bounds\n"),
+               (E_, "        self.bounds = list(repeat(b, len(self.species)))",
+                "        self.bounds = Bounds([b[0]]*len(self.species), [b[1]]*len(self.species))")]},
     {'name': 'status test spelled sol.status != 0',
      'edits': [(E_, "        if not sol.success:\n", "        if sol.status != 0:\n")]},
 ]
